@@ -76,6 +76,24 @@ CLAIMED.update({
    design="4 C10"),
 })
 
+CLAIMED.update({
+ "C14": dict(
+   technique="Coq proof on the memo-table machine (family of persistent walkers plus the one-shot substituter, over the model of walkers/dag.py) + random API histories versus a fresh Environment (AC order and fresh names canonicalised), every walk() replayed in the model, store-time memo snapshots and directed TheoryOracle aliasing cases",
+   text="coq/props/C14.v: any history (raising calls included) gives the answer a fresh walker gives (C14_history_independent); a repeated call returns the same memoised value with zero callbacks (C14_repeat_same); the one-shot substituter is history independent; every memo entry equals the naive fold, a persistent memo only grows and the stack is empty after every call. Closed under the global context. Random histories of 3-16 API calls (construction, printing, parsing, nnf, prenex, aig, cnf, analyses, logic detection, sizes) are compared with the same probe in a fresh Environment.",
+   note="Aliasing of mutable cached answers (Theory objects) is not a theorem: it is checked by store-time memo snapshots, 18 directed cases and the twin run. Hash-consing identity is C04's subject. Trusted: Coq kernel, hand model of the walker tied by correspondence, the outside-only wrappers of harness/walktap.py.",
+   design="4 C14"),
+ "C15": dict(
+   technique="Coq proof on the long-lived walker model (stack dropped on failure, one-shot memo cleared in finally) + fault injection at every key of random traversals plus natural faults and a corpus of repaired defects, compared with an untouched twin Environment and with the model",
+   text="coq/props/C15.v: after a walk that raised at ANY node the stack is empty, the memo is correct and only grown, and every later history answers as without the failing call (persistent walkers); for the one-shot substituter the state is pristine and later answers are equal. Closed under the global context. Faults: ill-typed substitution and construction, unsupported operator through a custom node type, injected callback failures at every node, malformed SMT-LIB scripts, unsupported commands.",
+   note="Which exception is raised is compared in the twin run only; parser, node table and per-call walkers are decided by twin comparison only. Open finding: declarations made by a failed script stay in the environment's symbol table. Trusted: Coq kernel, hand model tied by correspondence.",
+   design="4 C15"),
+ "C20": dict(
+   technique="Coq proof of call and iteration bounds on a hand model of walkers/dag.py, for every DAG and callback + model/implementation correspondence of callback order, loop iterations, stack and memo on every operation x operator family + measurement under the default recursion limit",
+   text="coq/props/C20.v: the callback runs exactly once per distinct reachable un-memoised key; calls <= number of distinct nodes; loop iterations <= 2*(1+edges) <= the fuel bound; the loop always terminates with an empty stack and a correct memo (also after an exception); the result equals the naive fold; type checking at creation costs one callback and O(arity) iterations. Counts and order are checked equal to the model on ~1050 traversals per run (23 operations x 25 operator families, tree size 2^n over n nodes, chains of depth 20000 / 200000).",
+   note="Recursion-freedom is MEASURED under the default recursion limit (a claim about CPython that no Gallina model exhibits), not proved; wall-clock time is not observed. Open findings: the simplifier's Plus/Times flattening builds 2^n arguments on shared sums. Trusted: Coq kernel, walktap wrappers, the hand model.",
+   design="4 C20"),
+})
+
 NOT_YET = "machinery for this property is not built yet (work in progress, see DESIGN.md section 8)"
 
 def main():
